@@ -29,13 +29,17 @@ func v2(p string) string {
 
 func checkC04(e *RunEnv) *CheckResult {
 	paths := []string{"a", "d/x", "d/y", "d/s/z", "ad/x", "d-x", "d0", "a b", "d/.goit", "big"}
-	singles := []string{".", "nonexist/../a", "@ROOT@/a", "@ROOT@/d", "../root/d/x", "big", "a", "d/x", "d/y", "d/s/z", "ad/x", "d-x", "d0", "a b", "d", "d/s", "ad", "nope", "d/nope", "d/", "./d", "./a", "d/s/."}
+	spellings := []string{".", "nonexist/../a", "@ROOT@/a", "@ROOT@/d", "../root/d/x", "@ROOT@", "d/", "./d", "./a", "d/s/.", "d//x", "../root"}
+	singles := []string{"big", "a", "d/x", "d/y", "d/s/z", "ad/x", "d-x", "d0", "a b", "d", "d/s", "ad", "nope", "d/nope", "d/", "./d", "./a", "d/s/."}
 	pairAlpha := []string{"a", "d", "d/x", "nope"}
 	if e.Thorough() {
 		pairAlpha = []string{"a", "d", "d/x", "nope", "ad", "d-x", "d/s"}
 	}
 	if !e.Thorough() {
 		singles = singles[:len(singles)-3] // quick: without the last three un-normalised spellings
+	}
+	if e.Thorough() {
+		singles = append(spellings, singles...)
 	}
 	var argLists [][]string
 	for _, s := range singles {
@@ -139,6 +143,22 @@ func checkC04(e *RunEnv) *CheckResult {
 				}
 				ed = append(ed, Delete(set[len(set)-1]), Run("add", arg), Run("add", arg))
 				cs = append(cs, Case{Base: base, BaseName: "S0", BaseSeed: seedS0(), Steps: ed})
+			}
+		}
+		// un-normalised, absolute and dot spellings of arguments: what a spelling means does not depend on the state,
+		// so a few states carry the whole spelling alphabet (the BFS of the thorough tier has it in every state)
+		{
+			dirty := []Step{Write("a", v2("a")), Delete("d/y"), Write("d/new", "new\n"), Write("zz untracked", "u\n")}
+			for bi, b := range [][]Step{seedA, seedB, append(append([]Step{}, seedB...), dirty...)} {
+				bs := x.BuildState(b)
+				if bs == nil {
+					continue
+				}
+				for _, sp := range spellings {
+					for _, cmd := range []string{"add", "rm"} {
+						cs = append(cs, Case{Base: bs, BaseName: fmt.Sprintf("spelling-base-%d", bi), BaseSeed: b, Steps: []Step{Run(cmd, sp).WithTags("spelling")}})
+					}
+				}
 			}
 		}
 		// 250 path arguments in one command
